@@ -148,6 +148,14 @@ func runC07Conc(r *mc.Report, e *Env, task int) {
 		d := &mc.DFS{Bound: bound, Deadline: e.Deadline, Retries: 8}
 		var out string
 		d.Body = func(c *mc.Ctx) { out = c07ConcRun(r, sc, c) }
+		if freeRuns > 0 { // race-detector pass
+			for i := 0; i < freeRuns; i++ {
+				mc.Replay(nil, d.Body)
+				r.Exec("free|" + sc.Name + "|" + out)
+			}
+			r.Count("free_running_executions", int64(freeRuns))
+			continue
+		}
 		d.After = func(c *mc.Ctx) {
 			if c.Diverged != "" {
 				r.Count("schedule_replays_diverged", 1)
